@@ -23,6 +23,8 @@ same names; the worlds below are all trees with n leaves for the n covered, not 
   G-map     topology_map(a, b) for chains of the same topology maps every particle and every decay of a to b such that
             the image of a decay is the decay of the images (mother-daughter relation preserved); standard_topology
             renames inner particles only and keeps the topology
+  M-sound   the memoised helpers (sorted_table, get_id, topology_id ...) are memoised soundly: an argument-blind
+            simple_cache_fun only on functions of self alone, no memoised function reads a state cell
   G-class   DecayGroup.topology_structure / get_chains_map: every chain of a group lies in exactly one class
 """
 import ast
@@ -309,11 +311,14 @@ def same_world(worlds):
         inner = sorted({d[0] for d in ds} - {"A"})
         out.append(_rename(ds, dict(ident, **{p: "R%d_%d" % (k, i) for i, p in enumerate(inner)})))
         out.append(_rename(list(reversed(ds)), dict(ident, **{p: "Z%d_%d" % (k, len(inner) - i) for i, p in enumerate(inner)})))
+        # the names of the first spelling, rotated among the inner particles: same topology, but a name now
+        # stands for another grouping than in the first spelling
+        out.append(_rename(ds, dict(ident, **{p: "R%d_%d" % (k, (i + 1) % len(inner)) for i, p in enumerate(inner)})))
     return [TokP(x) for x in ("B:1", "B:2", "C", "D")], out
 
 
 def check_same(repo, chk, worlds):
-    chk.rule("G-same", "topology_same(a, b, identical) == (sets of final-state groupings coincide), by particle and by name, all pairs of 30 chains over B:1 B:2 C D with renamed intermediate states")
+    chk.rule("G-same", "topology_same(a, b, identical) == (sets of final-state groupings coincide), by particle and by name, pairs of 45 chains over B:1 B:2 C D (three spellings of the intermediate states per topology, one of them re-using names for other groupings)")
     chk.rule("G-map", "topology_map / standard_topology: particles and decays of a are mapped onto those of b with the mother-daughter relation preserved; standard_topology keeps the topology")
     cc = repo.cls(PART + "::DecayChain")
     ts, tm, sd = cc.methods["topology_same"], cc.methods["topology_map"], cc.methods["standard_topology"]
@@ -389,7 +394,7 @@ def check_classes(repo, chk, finals, chains, objs, tr):
     gc = repo.cls(PART + "::DecayGroup")
     tsf, gcm = gc.methods["topology_structure"], gc.methods["get_chains_map"]
     ref = [str(groupings(ds, finals)) for ds in chains]
-    groups = [[0], [0, 1], [0, 1, 2, 3], [5, 4, 0, 1], [2, 8, 3, 9, 14, 15], list(range(0, 16, 2)), [7, 6, 29, 28, 1]]
+    groups = [[0], [0, 1], [0, 1, 2, 3], [5, 4, 0, 1], [2, 8, 3, 9, 14, 15], list(range(0, 16, 2)), [7, 6, 29, 28, 1], [0, 2, 5, 3], [41, 44, 43, 2]]
     bad = None
     for idxs in groups:
         grp = SelfObj(gc, {"chains": [objs[i] for i in idxs]})
@@ -426,6 +431,9 @@ def check_classes(repo, chk, finals, chains, objs, tr):
 
 
 def run(repo, chk, tier="quick"):
+    from ..cacheown import check_memo_soundness
+
+    check_memo_soundness(repo, chk)
     check_graph(repo, chk)
     worlds = check_enum(repo, chk, tier)
     if 4 not in worlds:
